@@ -3,7 +3,11 @@ import IPT.Gen.Consts
 import IPT.Gen.HijriGen
 /- hijri_date.rs over ℤ.  The code computes in f64 with `floor`; every intermediate is an
    integer of magnitude < 2^31, for which the f64 computation is exact (validated exhaustively
-   by the correspondence sweep over 0001-01-01..9999-12-31). -/
+   by the correspondence sweep over 0001-01-01..9999-12-31).
+   SCOPE: dates of the common era, years 1..9999 (the property's quantifier).  Not modelled: the
+   branch of `HijriDate::from` for proleptic years < 0 (it converts the date one year later and can
+   panic on 29 February), and the loops run on fuel 20 000 years, which the real code exceeds only
+   before year -19 700. -/
 namespace IPT
 
 /-- greg_abs_date -/
